@@ -110,3 +110,20 @@ def exception_histogram(results):
             if o is not None:
                 exc[o] = exc.get(o, 0) + 1
     return exc
+
+
+def catalogue_sweep(mode, variants, seed, key, replay=None):
+    """run the operation catalogue (harness/impl/ops_impl.py) in `mode` for every value of task field `key` in `variants`; -> (tasks, results)"""
+    from common import HarnessError, run_impl_parallel
+    info = run_impl_parallel("ops_impl.py", [{"list": True}])[0]
+    idx = list(range(info["n"])) if replay is None else [replay["catalog_index"]]
+    tasks = [{"index": i, "mode": mode, "seed": seed, key: v} for v in variants for i in idx]
+    parts = [tasks[i::16] for i in range(16)]
+    flat = [t for p in parts for t in p]
+    res = []
+    for rr in run_impl_parallel("ops_impl.py", [{"tasks": p} for p in parts if p]):
+        res.extend(rr["results"])
+    for r in res:
+        if "harness_error" in r:
+            raise HarnessError("ops_impl: " + r["harness_error"])
+    return flat, res
